@@ -553,7 +553,8 @@ func c08RunWorld(t *testing.T, rc c08Recipe, em *Emitter) []c08Shot {
 			}
 			res := allProps[k]
 			p := ocr2keepers.CoordinatedBlockProposal{UpkeepID: res.UpkeepID, Trigger: res.Trigger, WorkID: res.WorkID}
-			p.Trigger.BlockNumber += 3 // coordinated on another block
+			p.Trigger.BlockNumber += 3 // coordinated on another block …
+			c08StampWithView(r, &p, hists[0]) // … a recent block of the node's own view, as a real outcome does
 			round = append(round, p)
 		}
 		o.SurfacedProposals = append(o.SurfacedProposals, round)
@@ -878,6 +879,16 @@ func genResultOtherType(r *Rng, block uint64) ocr2keepers.CheckResult {
 	return res
 }
 
+// c08StampWithView binds a surfaced proposal to one of the newest blocks of a block-history view (number and hash), the
+// way coordination stamps the proposals of a round with the latest quorum block.  An empty view leaves it as it is.
+func c08StampWithView(r *Rng, p *ocr2keepers.CoordinatedBlockProposal, view ocr2keepers.BlockHistory) {
+	if len(view) == 0 {
+		return
+	}
+	b := view[r.Intn(min(len(view), 12))]
+	p.Trigger.BlockNumber, p.Trigger.BlockHash = b.Number, b.Hash
+}
+
 func c08Edge() []c08Recipe {
 	return []c08Recipe{
 		{Seed: 1, Seqs: []uint64{9, 10, 11}, NRes: 0, Layout: "small", InflightB: -1},
@@ -897,7 +908,8 @@ func c08Edge() []c08Recipe {
 		// everything in flight
 		{Seed: 12, Seqs: []uint64{50}, NRes: 12, InflightA: 12, InflightB: -1, Layout: "small", NBad: 5},
 		// previous outcome removes staged work and held proposals
-		{Seed: 13, Seqs: []uint64{59, 60}, NRes: 130, Layout: "small", InflightB: -1, Prev: true, NLog: 9, NCond: 9, PropInflight: 2},
+		{Seed: 13, Seqs: []uint64{59, 60}, NRes: 130, Layout: "small", InflightB: -1, Prev: true, NLog: 9, NCond: 9, PropInflight: 2, HistA: 300, HistB: 300},
+		{Seed: 19, Seqs: []uint64{66}, NRes: 20, Layout: "small", InflightB: -1, Prev: true, NLog: 3, NCond: 3, HistA: 40, HistB: 12},
 		// proposals one proposal-TTL old (24 h of virtual time)
 		{Seed: 14, Seqs: []uint64{61}, NRes: 10, Layout: "small", InflightB: -1, NLog: 3, NCond: 3, NAgedProps: 3, AgedDeltaMs: 137},
 		{Seed: 15, Seqs: []uint64{62}, NRes: 10, Layout: "small", InflightB: -1, NLog: 3, NCond: 3, NAgedProps: 3, AgedDeltaMs: -363},
